@@ -424,7 +424,7 @@ def run_lock(rep, scens, family, probe_pct=25, max_steps=600, salt=0, judge=None
         rep.violation(text, body)
     if not rejected:
         for text, body in diverged[:2]:
-            rep.violation(text, body, no_input=True)
+            rep.defer(text, body)
     rep.coverage["divergences"] = rep.coverage.get("divergences", 0) + len(diverged)
     rep.coverage["disagreements_checked"] += mism
     return mism
@@ -671,8 +671,12 @@ PROPERTY_FREE = {
     "C07": [("registration", "", 200, 4000)],
     "C08": [("readers", "free readers 3\nfree cbread\nfree slowclone 20000", 200, 4000),
             ("readers", "free readers 2\nfree cbread", 100, 2000)],
-    "C09": [("subs_lifecycle", "", 200, 4000)],
-    "C10": [("channeled", "", 200, 4000)],
+    "C09": [("subs_lifecycle", "", 200, 4000),
+            # a slow release at shutdown and a slow channeled consumer: unsubscribe() racing stop()
+            ("shutdown_unsub", "delay unsub 1 0 1500\ndelay notify 2 0 400\ndelay notify 3 0 400\ndelay notify 4 0 400", 150, 3000)],
+    "C10": [("channeled", "", 200, 4000),
+            # slow channeled consumers: full subscription queues at unsubscribe / stop
+            ("channeled", "delay notify 2 0 300\ndelay notify 3 0 300", 150, 3000)],
     "C11": [("effects", "", 200, 4000)],
     "C14": [("iterators", "", 100, 2000)],
     "C15": [("droppable", "", 200, 4000)],
